@@ -23,7 +23,7 @@ import re
 import shlex
 
 from .lifter import (Source, Seg, Edits, LiftError, find_loops, rewrite_tail_continue,
-                     rewrite_string_add, rewrite_ctor_fn_value, strip_visibility, rewrite_try)
+                     rewrite_string_add, rewrite_ctor_fn_value, strip_visibility, rewrite_try, rewrite_format)
 
 REPO = os.environ.get('VERIF_REPO', '/repo')
 VERIF = os.path.dirname(os.path.dirname(os.path.abspath(__file__)))
@@ -272,6 +272,8 @@ def _body_rewrites(src, ed, lo, hi, loops, blk, log):
     rewrite_tail_continue(src, ed, loops, lo, hi, log)
     rewrite_string_add(src, ed, lo, hi, log)
     rewrite_ctor_fn_value(src, ed, lo, hi, log)
+    if blk.args.get('format') == 'fmt1':
+        rewrite_format(src, ed, lo, hi, log)
     if blk.args.get('desugar_try'):
         rewrite_try(src, ed, lo, hi, log)
     text = src.text
